@@ -152,6 +152,7 @@ func (b *builder) shared() *task {
 
 // enqueue fn to be built by the builder.
 func (b *builder) enqueue(fn *Function) {
+	verifEnqueue(fn)
 	b.fns = append(b.fns, fn)
 }
 
@@ -3209,6 +3210,7 @@ func (b *builder) buildFunction(fn *Function) {
 		}
 		fn.build(b, fn)
 		fn.done()
+		verifFnBuilt(fn)
 	}
 }
 
@@ -3476,6 +3478,7 @@ var cpuLimit = make(chan unit, runtime.GOMAXPROCS(0))
 func (p *Package) Build() { p.buildOnce.Do(p.build) }
 
 func (p *Package) build() {
+	verifPkgBuild(p)
 	if p.info == nil {
 		return // synthetic package, e.g. "testmain"
 	}
